@@ -659,6 +659,9 @@ func (s *Sim) pick(r []*Task) (next *Task, noop bool) {
 	}
 	if pre != nil {
 		if len(r) == 1 {
+			// recorded all the same: a replay must go through the identical scheduler iteration
+			// (predicate evaluation, lock hand-off draw) at this yield
+			s.PreemptRec = append(s.PreemptRec, s.yieldCount)
 			return pre, true
 		}
 		others := make([]*Task, 0, len(r)-1)
